@@ -179,6 +179,15 @@ func ScanSnapshot(in io.Reader, prefix io.Writer, opts *Opts) (*Snapshot, []byte
 			if err1 != nil && (err == nil || err == io.EOF) {
 				err = err1
 			}
+			if len(s.release) != 0 {
+				// Race detector header lines that were a false positive.
+				_, err2 := prefix.Write(s.release)
+				s.release = nil
+				if err2 != nil && (err == nil || err == io.EOF) {
+					err = err2
+					break
+				}
+			}
 			if !l {
 				if s.state != looking {
 					suffix = append([]byte{}, d...)
@@ -452,6 +461,12 @@ type scanningState struct {
 	state          state
 	prefix         []byte
 	goroutineIndex int
+	// held are the race detector header lines consumed so far; they are only
+	// really part of a trace once an operation header follows.
+	held []byte
+	// release is text that turned out not to be part of a trace and must be
+	// output before the current line.
+	release []byte
 }
 
 func isFramesElidedLine(line []byte) bool {
@@ -566,8 +581,9 @@ func (s *scanningState) scan(line []byte) (bool, error) {
 		// race report that follows a goroutine dump ends that dump and is handed
 		// back as the remainder.
 		if s.state == looking && bytes.Equal(trimmed, raceHeaderFooter) {
-			// TODO(maruel): We should buffer it in case the next line is not a
-			// WARNING so we can output it back.
+			// Hold it in case the next line is not a WARNING so it can be output
+			// back.
+			s.held = append(s.held[:0], line...)
 			s.state = gotRaceHeader1
 			return true, nil
 		}
@@ -677,13 +693,13 @@ func (s *scanningState) scan(line []byte) (bool, error) {
 
 	case gotRaceHeader1:
 		if bytes.Equal(trimmed, raceHeader) {
-			// TODO(maruel): We should buffer it in case the next line is not a
-			// WARNING so we can output it back.
+			s.held = append(s.held, line...)
 			s.state = gotRaceHeader2
 			return true, nil
 		}
-		// TODO(maruel): While this shouldn't error out, it should still force the
-		// output of raceHeaderFooter.
+		// Not a race report after all: output raceHeaderFooter back.
+		s.release = append(s.release, s.held...)
+		s.held = s.held[:0]
 		s.state = looking
 		s.prefix = nil
 		// The separator was a false positive but this line may still start a
@@ -695,10 +711,14 @@ func (s *scanningState) scan(line []byte) (bool, error) {
 			w := bytes.Equal(match[1], writeCap)
 			addr, err := strconv.ParseUint(unsafeString(match[2]), 0, 64)
 			if err != nil {
+				s.release = append(s.release, s.held...)
+				s.held = nil
 				return false, fmt.Errorf("failed to parse address on line: %q", bytes.TrimSpace(trimmed))
 			}
 			id, ok := atou(match[3])
 			if !ok {
+				s.release = append(s.release, s.held...)
+				s.held = nil
 				return false, fmt.Errorf("failed to parse goroutine id on line: %q", bytes.TrimSpace(trimmed))
 			}
 			if s.Goroutines != nil {
@@ -707,8 +727,12 @@ func (s *scanningState) scan(line []byte) (bool, error) {
 			s.Goroutines = append(make([]*Goroutine, 0, 4), &Goroutine{ID: id, First: true, RaceWrite: w, RaceAddr: addr})
 			s.goroutineIndex = len(s.Goroutines) - 1
 			s.state = gotRaceOperationHeader
+			s.held = nil
 			return true, nil
 		}
+		// Not a race report after all: output both header lines back.
+		s.release = append(s.release, s.held...)
+		s.held = nil
 		return false, fmt.Errorf("expected race condition, got: %q", bytes.TrimSpace(trimmed))
 
 	case gotRaceOperationHeader:
